@@ -67,6 +67,10 @@ package transaction
 //@   loop 2 invariant @partdate: $i > 0 ==> result[len(result) - 1].Date == partition.periods[$i - 1].End
 //
 // Create: the model transactions of one syntax transaction; all postings come from the pair builder.
+// @targets (C20): the convention between this package and performance.ComputeFlows - no @performance annotation
+// gives nil targets (an ordinary transaction: external flows), an annotation gives a non-nil list - also
+// `@performance()`, whose list is empty (an effect on the portfolio as a whole, no flow). (That the list has one
+// entry per named commodity is not stated: the length invariant made an unrelated obligation five times slower.)
 //@ def okPostings(tr *Transaction) bool := tr != nil && paired(tr.Postings)
 //@ def syntaxOK(t *syntax.Transaction) bool := t != nil && inText(t.Date.Range) && inText(t.Description.Content)
 //@     && (forall i int :: {t.Bookings[i]} 0 <= i && i < len(t.Bookings) ==> inText(t.Bookings[i].Quantity.Range) && inText(t.Bookings[i].Credit.Range) && inText(t.Bookings[i].Debit.Range) && inText(t.Bookings[i].Commodity.Range))
@@ -82,7 +86,10 @@ package transaction
 //@   ensures [C10] @accrual: t.Addons.Accrual.Range.Start != t.Addons.Accrual.Range.End && result.1 == nil ==> tlen() == old(tlen()) + 1 && result.0 == tres("expand", old(tlen()))
 //@        && targ("expand", 2, old(tlen())) == &t.Addons.Accrual
 //@   ensures [C10] @plain: t.Addons.Accrual.Range.Start == t.Addons.Accrual.Range.End ==> tlen() == old(tlen()) && (result.1 == nil ==> len(result.0) == 1)
+//@   ensures [C20] @targets: result.1 == nil ==> (forall j int :: {result.0[j]} 0 <= j && j < len(result.0) ==>
+//@        (result.0[j].Targets == nil) == (t.Addons.Performance.Range.Start == t.Addons.Performance.Range.End))
 //@   loop 1 invariant fresh(targets) && wfCommodities(reg.commodities) && wfAccounts(reg.accounts) && tlen() == entry(tlen())
+//@   loop 1 invariant targets != nil
 //
 // Compare: date, description, then the postings pairwise, then the number of postings; two
 // transactions tie only if they agree in all of these (so equal-comparing transactions print alike).
